@@ -221,20 +221,22 @@ def execute(sc):
       if name in ('uniform', 'uniform_arith'):
         lo, hi = v64.min(), v64.max()
         rng_ = hi - lo
-        tol = 1e-5 * max(rng_, 1e-30) + 1e-7 * max(abs(lo), abs(hi))
+        tol = 1e-5 * max(rng_, 1e-30) + 8e-7 * max(abs(lo), abs(hi))
         if rng_ == 0:
           if not np.all(np.abs(o - v64) <= tol):
             violation('Q4', f'Q4:constant-or-zero-leaf-not-passed-through:{name}', f'{label}: {v.tolist()[:5]} -> {o.tolist()[:5]}')
           continue
         step = rng_ / (L - 1)
-        pos = (v64 - lo) / step
-        fl, ce = lo + np.floor(pos + 1e-6) * step, lo + np.ceil(pos - 1e-6) * step
-        ok = (np.abs(o - fl) <= tol) | (np.abs(o - ce) <= tol) | \
-             (np.abs(o - (lo + np.floor(pos) * step)) <= tol) | (np.abs(o - (lo + np.ceil(pos) * step)) <= tol)
+        # float32 arithmetic at magnitude |v|: a few ulps of max|v| in every computed value
+        tol = 1e-5 * rng_ + 8e-7 * max(abs(lo), abs(hi))
+        lvl = np.rint((o - lo) / step)
+        on_grid = np.abs(o - (lo + lvl * step)) <= tol
+        near = np.abs(o - v64) <= step + 2 * tol       # one of the two neighbouring levels <=> on the grid and within one step
+        ok = on_grid & near
         if not np.all(ok):
           i = int(np.argmin(ok))
           violation('Q2', f'Q2:output-not-a-neighbouring-grid-level:{name}',
-                    f'{label} ({c}): input {v64[i]} in [{lo},{hi}] with {L} levels -> {o[i]} (neighbours {fl[i]}, {ce[i]})')
+                    f'{label} ({c}): input {v64[i]} in [{lo},{hi}] with {L} levels (step {step}) -> {o[i]}')
         if (o < lo - tol).any() or (o > hi + tol).any():
           violation('Q2', f'Q2:output-outside-input-range:{name}', f'{label}: range [{lo},{hi}] output [{o.min()},{o.max()}]')
         if c == 'ongrid' and not np.all(np.abs(o - v64) <= tol):
